@@ -5,11 +5,22 @@
 //! A schedule is "which thread starts" + a list of preemptions (thread, index of its hook point).
 //! At a lock point the probe tells whether the lock could be taken; if not, the thread is
 //! *disabled* and the other one runs (a forced switch, not a preemption). No enabled thread =
-//! deadlock. A watchdog turns a thread that neither reaches a hook nor finishes into a machinery
-//! error (a blocking primitive the hooks do not cover).
+//! deadlock.
+//!
+//! Blocking primitives the hooks do not cover (any other lock of the client, a DashMap shard, a
+//! RocksDB mutex): the watchdog samples the OS state of the thread whose turn it is
+//! (`/proc/self/task/<tid>/stat`). A thread that *sleeps* in the kernel for `STUCK_MS` although it
+//! is its turn waits for something the other (parked) thread holds: the turn is forced over to
+//! the other thread (counted, `forced_switches`). If the other thread cannot run either (it is
+//! done, waits at a lock point, or sleeps the same way) the two threads wait for each other:
+//! that is a deadlock of the code under test, reported through the hang handler (the process has
+//! to end, OS threads blocked in a lock cannot be unwound). A thread that is merely slow is
+//! runnable, not sleeping, and is never taken for blocked. The 30 s watchdog remains as the
+//! machinery error for anything else.
 
 use std::cell::Cell;
 use std::panic::{catch_unwind, AssertUnwindSafe};
+use std::sync::atomic::{AtomicU64, Ordering};
 use std::sync::{Arc, Condvar, Mutex};
 use std::time::{Duration, Instant};
 
@@ -25,7 +36,40 @@ enum St {
     Running,
     Parked,
     Blocked,
+    /// sleeps in the kernel outside a hook point (a blocking primitive without a lock point)
+    Stuck,
     Done,
+}
+
+/// how long the thread whose turn it is has to sleep in the kernel before it counts as blocked
+const STUCK_MS: u64 = 400;
+
+static TIDS: [AtomicU64; 2] = [AtomicU64::new(0), AtomicU64::new(0)];
+
+/// Called (from the watchdog thread) when the two threads wait for each other through a
+/// primitive without a lock point; gets the schedule log. It has to end the process.
+pub(crate) type HangFn = dyn Fn(&[String]) + Send + Sync;
+static HANG: Mutex<Option<Arc<HangFn>>> = Mutex::new(None);
+
+pub(crate) fn set_hang_handler(f: Option<Arc<HangFn>>) {
+    *HANG.lock().unwrap_or_else(|e| e.into_inner()) = f;
+}
+
+fn os_tid() -> u64 {
+    std::fs::read_link("/proc/thread-self")
+        .ok()
+        .and_then(|p| p.file_name().and_then(|n| n.to_str().and_then(|s| s.parse().ok())))
+        .unwrap_or(0)
+}
+
+/// 'R' running / runnable, 'S' sleeping, 'D' disk sleep, ...
+fn os_state(tid: u64) -> Option<char> {
+    if tid == 0 {
+        return None;
+    }
+    let stat = std::fs::read_to_string(format!("/proc/self/task/{}/stat", tid)).ok()?;
+    let rest = &stat[stat.rfind(')')? + 1..];
+    rest.trim_start().chars().next()
 }
 
 struct Shared {
@@ -40,6 +84,7 @@ struct Shared {
     deadlock: bool,
     /// how often the second thread finished while the first one was parked inside its operation
     overlapped: bool,
+    forced_switches: u64,
 }
 
 pub(crate) struct Outcome {
@@ -51,6 +96,8 @@ pub(crate) struct Outcome {
     pub log: Vec<String>,
     /// the other thread ran to completion while a thread was parked at a preemption point
     pub overlapped: bool,
+    /// turns handed over because the running thread slept at a primitive without a lock point
+    pub forced_switches: u64,
 }
 
 const ABORT_MSG: &str = "verif-sched-abort";
@@ -80,7 +127,7 @@ impl Ctl {
     fn switch_from(&self, g: &mut Shared, me: usize) -> bool {
         let other = 1 - me;
         match g.st[other] {
-            St::NotStarted | St::Parked | St::Blocked => {
+            St::NotStarted | St::Parked | St::Blocked | St::Stuck => {
                 g.turn = other;
                 true
             }
@@ -122,6 +169,15 @@ impl Ctl {
                 g.st[me] = St::Blocked;
                 g.log.push(format!("T{} blocked at {}", me, label));
                 let other = 1 - me;
+                if g.st[other] == St::Stuck {
+                    // the holder sleeps at a primitive without a lock point, waiting for
+                    // something this thread holds: neither can be unwound
+                    g.deadlock = true;
+                    g.log.push(format!("T{} sleeps outside a hook point, T{} waits for {}: deadlock", other, me, label));
+                    let log = g.log.clone();
+                    drop(g);
+                    hang(&log);
+                }
                 if g.st[other] == St::Done || g.st[other] == St::Blocked {
                     // the holder is gone or waits as well
                     g.deadlock = true;
@@ -171,6 +227,7 @@ pub(crate) fn run_pair<'s>(
             abort: false,
             deadlock: false,
             overlapped: false,
+            forced_switches: 0,
         }),
         cv: Condvar::new(),
     });
@@ -184,6 +241,7 @@ pub(crate) fn run_pair<'s>(
             let ctl = Arc::clone(&ctl);
             handles.push(s.spawn(move || {
                 TID.with(|t| t.set(id));
+                TIDS[id].store(os_tid(), Ordering::SeqCst);
                 let r = catch_unwind(AssertUnwindSafe(|| {
                     ctl.wait_turn(id);
                     f();
@@ -200,11 +258,45 @@ pub(crate) fn run_pair<'s>(
         }
         // watchdog
         let start = Instant::now();
+        let mut asleep_since: Option<(usize, usize, Instant)> = None;
         loop {
             {
-                let g = ctl.m.lock().unwrap();
+                let mut g = ctl.m.lock().unwrap();
                 if g.st[0] == St::Done && g.st[1] == St::Done {
                     break;
+                }
+                // does the thread whose turn it is sleep in the kernel (outside the scheduler)?
+                let t = g.turn;
+                let progress = g.points[0] + g.points[1];
+                let sleeping = (g.st[t] == St::Running || g.st[t] == St::Stuck)
+                    && matches!(os_state(TIDS[t].load(Ordering::SeqCst)), Some('S') | Some('D'));
+                match (sleeping, asleep_since) {
+                    (true, Some((t0, p0, since))) if t0 == t && p0 == progress => {
+                        if since.elapsed() > Duration::from_millis(STUCK_MS) {
+                            let other = 1 - t;
+                            g.st[t] = St::Stuck;
+                            g.log.push(format!("T{} sleeps outside a hook point (a blocking primitive without a lock point)", t));
+                            match g.st[other] {
+                                St::Parked | St::NotStarted | St::Blocked => {
+                                    g.forced_switches += 1;
+                                    g.turn = other;
+                                    g.log.push(format!("forced switch to T{}", other));
+                                    ctl.cv.notify_all();
+                                    asleep_since = None;
+                                }
+                                St::Stuck | St::Done | St::Running => {
+                                    g.deadlock = true;
+                                    let st_other = g.st[other];
+                                    g.log.push(format!("T{} is {:?}: nobody can run, deadlock", other, st_other));
+                                    let log = g.log.clone();
+                                    drop(g);
+                                    hang(&log);
+                                }
+                            }
+                        }
+                    }
+                    (true, _) => asleep_since = Some((t, progress, Instant::now())),
+                    (false, _) => asleep_since = None,
                 }
             }
             if start.elapsed() > Duration::from_secs(30) {
@@ -231,5 +323,16 @@ pub(crate) fn run_pair<'s>(
     });
     verif_hooks::set_point_hook(None);
     let g = ctl.m.lock().unwrap();
-    Outcome { deadlock: g.deadlock, hung, panics, labels: g.labels.clone(), log: g.log.clone(), overlapped: g.overlapped }
+    Outcome { deadlock: g.deadlock, hung, panics, labels: g.labels.clone(), log: g.log.clone(), overlapped: g.overlapped, forced_switches: g.forced_switches }
+}
+
+/// The two threads wait for each other and cannot be unwound: hand the log to the handler of the
+/// check (which records the violation and ends the process); without one this is a machinery error.
+fn hang(log: &[String]) -> ! {
+    let h = HANG.lock().unwrap_or_else(|e| e.into_inner()).clone();
+    if let Some(h) = h {
+        h(log);
+    }
+    eprintln!("E-sched: the threads wait for each other outside the hook points (log: {:?})", log);
+    std::process::exit(2);
 }
